@@ -165,6 +165,23 @@ class Rat:
         return self.canon()
 
 
+def subst(rat, mapping):
+    """Substitute symbols by Rats (exact)."""
+    def ev(poly):
+        tot = Rat.const(0)
+        for mon, co in poly.t.items():
+            term = Rat.const(co)
+            for s, pw in mon:
+                v = mapping.get(s)
+                if v is None:
+                    v = Rat.sym(s)
+                for _ in range(pw):
+                    term = term * v
+            tot = tot + term
+        return tot
+    return ev(reduce_trig(rat.n)) / ev(reduce_trig(rat.d))
+
+
 def reduce_trig(p):
     """sin(x)^2 -> 1 - cos(x)^2 ; sqrt(x)^2 -> x is handled at construction (pow/mul of sqrt symbols)."""
     for s in list(p.symbols()):
